@@ -128,6 +128,15 @@ def eval_str(node, env: dict, funcs: dict | None = None):
         if isinstance(n, ast.IfExp):
             t = ev_test(n.test)
             return ev(n.body) if t else ev(n.orelse)
+        if isinstance(n, ast.BoolOp):
+            val = None
+            for v in n.values:
+                val = ev(v)
+                if isinstance(n.op, ast.Or) and val:
+                    return val
+                if isinstance(n.op, ast.And) and not val:
+                    return val
+            return val
         if isinstance(n, ast.Subscript):
             base = ev(n.value)
             idx = ev(n.slice) if not isinstance(n.slice, ast.Slice) else slice(
